@@ -27,7 +27,7 @@ SRC = 'hail/python/hailtop/batch_client/parse.py'
 SRC_VALIDATE = 'batch/batch/front_end/validate.py'
 SRC_VALIDATORS = 'hail/python/hailtop/utils/validate/validate.py'
 COQ_PROPS = 'theories/SizeParse/Props_C25.v'
-READY = False
+READY = True
 
 FUNCS = [('cpu', 'parse_cpu_in_mcpu'), ('memory', 'parse_memory_in_bytes'), ('storage', 'parse_storage_in_bytes')]
 
@@ -335,3 +335,291 @@ def generate(ctx):
     out.append('Definition server_mode : mode := FullMatch.')
     ctx.write_generated('Gen.v', '\n'.join(out) + '\n')
     ctx.c25 = dict(pats=pats, objs=objs, used=used, dicts=dicts, server=server)
+
+
+# ------------------------------------------------------------------------------------------------ reference (no regex, no floats)
+
+META = dict(
+    design_ref='§5.B C25',
+    technique='Coq proof over all code-point lists about a model regenerated from parse.py (regexes via CPython\'s regex parser, function '
+              'bodies via the AST translator over exact rationals) + correspondence of the proved-equivalent executable parser with the real functions',
+    level_text='Machine-checked theorems (Coq 8.16, no axioms): for EVERY string, if it denotes q millicores / bytes under the documented grammar '
+               '([+] digits | digits* "." digits+ , unit m / K M G T P [i] [B]) then parse_cpu_in_mcpu returns exactly floor(q) and '
+               'parse_memory_in_bytes / parse_storage_in_bytes return exactly ceil(q); every other string yields None; the functions never raise '
+               '(no KeyError: every unit the regex admits is in conv_factor); the server-side job validator accepts exactly the strings the '
+               'client functions parse. The model is regenerated on every run and targets the code with fixes/C25.diff applied '
+               '(float -> fractions.Fraction); on the unfixed tree the translator refuses float arithmetic and the oracle replays '
+               '\'0.067G\' -> 67000001 and \'1.001\' -> 1000.',
+    level_note='Model = code only for numerals of at most 4300 digits: beyond that CPython\'s int(str) limit makes Fraction(str) raise ValueError '
+               '(open finding, reproduced by the oracle on every run). Trusted: Coq kernel; Regex.M / Model.FM as the semantics of re.fullmatch and '
+               '.group() for a top-level concatenation of groups; frac_of_str as fractions.Fraction(str) (checked differentially); the translators.',
+    partial=False,
+)
+TRUSTED = ['relational semantics HailV.Regex.Regex.M (acceptance) and SizeParse.Model.FM (captures of top-level groups) of CPython re.fullmatch/.group',
+           'SizeParse.Model.frac_of_str / py_int_of_Q / Qceiling as fractions.Fraction(str), int(Fraction), math.ceil(Fraction) (differentially tested)',
+           'harness/translate/regex_sre.py, harness/translate/pyast.py + the SizePyToCoq extension in harness/props/C25.py',
+           'AST reading of batch/batch/front_end/validate.py and hailtop/utils/validate/validate.py (which compiled object, fullmatch)']
+ASSUMPTIONS = ['numerals have at most 4300 digits (sys.int_max_str_digits); longer ones make Fraction(str) raise ValueError in the real code — '
+               'reported as open finding *:raises-ValueError:digits>4300',
+               'the server additionally admits the symbolic memory names lowmem/standard/highmem (anyof(regex, oneof(*memory_types))); they are resolved '
+               'before parse_memory_in_bytes is called and are not size strings']
+
+DIG = '0123456789'
+UNITS_MEM = {'': 1, 'K': 1000, 'Ki': 1024, 'M': 1000 ** 2, 'Mi': 1024 ** 2, 'G': 1000 ** 3, 'Gi': 1024 ** 3,
+             'T': 1000 ** 4, 'Ti': 1024 ** 4, 'P': 1000 ** 5, 'Pi': 1024 ** 5}
+
+
+def _int_of_digits(d: str) -> int:
+    v = 0
+    for i in range(0, len(d), 4000):           # stay below the int(str) digit limit of the harness interpreter
+        chunk = d[i:i + 4000]
+        v = v * 10 ** len(chunk) + (int(chunk) if chunk else 0)
+    return v
+
+
+def ref_numeral(s: str):
+    """(numerator, denominator_exponent, rest) for the longest numeral  digits | digits* '.' digits+  at the start of s, else None."""
+    i = 0
+    while i < len(s) and s[i] in DIG:
+        i += 1
+    if i < len(s) and s[i] == '.':
+        j = i + 1
+        while j < len(s) and s[j] in DIG:
+            j += 1
+        if j > i + 1:
+            return _int_of_digits(s[:i] + s[i + 1:j]), j - i - 1, s[j:]
+    if i == 0:
+        return None
+    return _int_of_digits(s[:i]), 0, s[i:]
+
+
+def ref_parse(kind: str, s: str):
+    """None if s is not a size string of this kind, else the exact int the property demands."""
+    if s.startswith('+'):
+        s = s[1:]
+    r = ref_numeral(s)
+    if r is None:
+        return None
+    n, k, rest = r
+    if kind == 'cpu':
+        if rest == '':
+            return (n * 1000) // 10 ** k                    # floor
+        if rest == 'm':
+            return n // 10 ** k
+        return None
+    if rest.endswith('B'):
+        rest = rest[:-1]
+    if rest not in UNITS_MEM:
+        return None
+    return -((-n * UNITS_MEM[rest]) // 10 ** k)             # ceil
+
+
+def _show(x) -> str:
+    """ints may have thousands of digits: never go through int->decimal str for those (interpreter digit limit)."""
+    if isinstance(x, int) and not isinstance(x, bool) and x.bit_length() > 4000:
+        h = hex(x)
+        return f'{h[:24]}...({len(h) - 2} hex digits)'
+    return str(x)
+
+
+def _ndigits(s: str) -> int:
+    best = cur = 0
+    for c in s:
+        cur = cur + 1 if c in DIG else 0
+        best = max(best, cur)
+    return best
+
+
+def _sig(s: str) -> str:
+    out = []
+    for c in s:
+        t = 'd' if c in DIG else c if (c.isascii() and c.isprintable()) else 'N' if c == '\n' else 'u' if ord(c) > 127 else 'C'
+        if not (t == 'd' and out and out[-1] == 'd'):
+            out.append(t)
+    return ''.join(out)[:14]
+
+
+# ------------------------------------------------------------------------------------------------ cases
+
+SMALL = '05.+mKiBG'
+ODD = ['', '.', '+', '1.', '.5', '+.5', '++1', '1..2', '1.2.3', '1e3', '1E3', '-1', ' 1', '1 ', '1\n', '\n1', '1m\n', '1Gi\n', '0x10', '1_000', 'inf', 'nan',
+       '١', '1١', '１', '1٫5', '1,5', '1k', '1ki', '1KI', '1kB', '1Kb', '1mB', '1Bi', '1iB', '1BB', '1KiBB', '1KK', '1mm', '1M', '1m', 'm', 'K', 'B', 'Ki', 'KiB',
+       '1Ei', '1E', '1Z', '1Y', '1µ', '0', '00', '000.000', '+0', '+0m', '0.0004', '0.0005m', '0.9999', '0.9995', '1.0005', '2.5m', '1.0000000000000001',
+       '0.1', '0.2', '0.3', '0.7', '1.1', '2.2', '4.35', '8.675', '0.067G', '1.001', '0.29', '0.57', '0.58', '1.15', '16.1', '32.3', '0.001Pi', '0.1Pi', '1.5KiB',
+       '9007199254740993', '9007199254740993m', '9007199254740993K', '0.30000000000000004', '123456789.123456789Ti', '0.000000000000000000001P',
+       '99999999999999999999999999999999999', '1' + '0' * 320, '0.' + '0' * 330 + '1', '1' + '0' * 400 + 'Pi', '4.9e-324', 'lowmem', 'standard', 'highmem']
+
+
+def _gen_valid(rng, kind):
+    ip = ''.join(rng.choice(DIG) for _ in range(rng.choice([0, 1, 1, 1, 2, 3, 5, 9, 16, 17, 18, 25])))
+    fp = ''.join(rng.choice(DIG) for _ in range(rng.choice([0, 0, 1, 2, 3, 3, 3, 4, 6, 9, 15, 16, 17, 20, 30])))
+    if not ip and not fp:
+        ip = rng.choice(DIG)
+    num = ip + ('.' + fp if fp else '')
+    unit = rng.choice(['', 'm']) if kind == 'cpu' else rng.choice(list(UNITS_MEM)) + rng.choice(['', 'B'])
+    return rng.choice(['', '', '', '+']) + num + unit
+
+
+def _cases(ctx, n_random, small_len, with_sweep):
+    import glob
+    import itertools
+    import os
+    out = []
+    for f in sorted(glob.glob(os.path.join(ctx.verif, 'corpus', ID, '*.json'))):
+        out += [c['s'] for c in json.load(open(f)).get('cases', [])]
+    out += ODD
+    for k in range(1, small_len + 1):
+        out += [''.join(t) for t in itertools.product(SMALL, repeat=k)]
+    rng = ctx.rng
+    for _ in range(n_random):
+        s = _gen_valid(rng, rng.choice(['cpu', 'mem', 'mem']))
+        if rng.random() < 0.25:                           # perturb
+            i = rng.randint(0, len(s))
+            s = s[:i] + rng.choice(['.', '+', 'm', 'B', 'i', 'K', 'k', ' ', '\n', 'e', '-', '٣', 'E', 'Gi', '']) + s[i + rng.choice([0, 0, 1]):]
+        out.append(s)
+    if with_sweep:                                        # the family where binary floating point goes wrong
+        for a in range(0, 30):
+            for frac in range(0, 1000, 1 if ctx.thorough else 7):
+                out.append(f'{a}.{frac:03d}')
+    seen, uniq = set(), []
+    for s in out:
+        if s not in seen:
+            seen.add(s)
+            uniq.append(s)
+    return uniq
+
+
+LONG = [('9' * 4300, True), ('0.' + '0' * 4299 + '1', True), ('1' * 2150 + '.' + '7' * 2150, True),
+        ('9' * 4301, False), ('0.' + '0' * 4300 + '1', False)]
+
+
+def _cps(s):
+    return [ord(c) for c in s]
+
+
+def _dec(x):
+    return int(x, 16) if isinstance(x, str) and not x.startswith('Raises') else x
+
+
+def _eval_impl(ctx, strings, server=False):
+    r = ctx.run_impl('c25_parse.py', {'op': 'eval', 'strings': [_cps(s) for s in strings], 'server': server}, timeout=600)
+    for k in ('cpu', 'memory', 'storage'):
+        r[k] = [_dec(x) for x in r[k]]
+    return r
+
+
+def _coq_list(s):
+    return '[' + '; '.join(str(ord(c)) for c in s) + ']'
+
+
+# ------------------------------------------------------------------------------------------------ X
+
+def correspond(ctx):
+    strings = _cases(ctx, ctx.scale(2500, 30000), ctx.scale(4, 5), with_sweep=False)
+    impl = _eval_impl(ctx, strings)
+    header = ('From Coq Require Import QArith Qround.\nFrom HailV Require Import Common.Prelude Regex.Regex SizeParse.Model.\n'
+              'From HailG Require Import C25.Gen.\nOpen Scope N_scope.')
+    B = 200
+    exprs = []
+    for i in range(0, len(strings), B):
+        lst = '[' + '; '.join(_coq_list(s) for s in strings[i:i + B]) + ']'
+        exprs.append(f'map (fun s : list N => (cpu_spec s, mem_spec s)) {lst}')
+    model = [t for batch in coq_eval(ctx, header, exprs, shard=3) for t in batch]
+    dis = []
+    hist = {'cpu': {'int': 0, 'None': 0}, 'memory': {'int': 0, 'None': 0}}
+
+    def un(o):
+        return None if o is None else o[1]
+    for s, (mc, mm), ic, im, ist in zip(strings, model, impl['cpu'], impl['memory'], impl['storage']):
+        hist['cpu']['int' if isinstance(ic, int) else 'None'] += 1
+        hist['memory']['int' if isinstance(im, int) else 'None'] += 1
+        if un(mc) != ic:
+            dis.append(Disagreement('cpu_spec~parse_cpu_in_mcpu', {'fn': 'cpu', 's': s}, un(mc), ic))
+        if un(mm) != im:
+            dis.append(Disagreement('mem_spec~parse_memory_in_bytes', {'fn': 'memory', 's': s}, un(mm), im))
+        if un(mm) != ist:
+            dis.append(Disagreement('mem_spec~parse_storage_in_bytes', {'fn': 'storage', 's': s}, un(mm), ist))
+    # the model of fractions.Fraction(str) on the numerals
+    nums = sorted({s.lstrip('+').rstrip('mKMGTPiB') for s in strings if ref_parse('mem', s) is not None or ref_parse('cpu', s) is not None})
+    nums = [x for x in nums if x and _ndigits(x) <= 400][:ctx.scale(1500, 10000)]
+    fr = ctx.run_impl('c25_parse.py', {'op': 'fraction', 'strings': [_cps(s) for s in nums]}, timeout=300)['fraction']
+    exprs = []
+    for i in range(0, len(nums), B):
+        lst = '[' + '; '.join(_coq_list(s) for s in nums[i:i + B]) + ']'
+        exprs.append(f'map (fun s : list N => let q := Qred (frac_of_str s) in (Qnum q, Zpos (Qden q))) {lst}')
+    mfr = [t for batch in coq_eval(ctx, header, exprs, shard=3, label='frac') for t in batch]
+    for s, m, i in zip(nums, mfr, fr):
+        iv = i if isinstance(i, str) else (int(i[0], 16), int(i[1], 16))
+        if tuple(m) != iv:
+            dis.append(Disagreement('frac_of_str~fractions.Fraction', {'fn': 'fraction', 's': s}, list(m), iv))
+    nontrivial = sum(1 for s in strings if ref_parse('cpu', s) is not None or ref_parse('mem', s) is not None)
+    return Corr(evaluations=3 * len(strings) + len(nums), distinct_nontrivial=nontrivial,
+                rule='distinct strings: corpus + hand-written odd cases (unicode digits, exponents, case variants, newlines, 17+ digit numerals, '
+                     '4300-digit numerals) + ALL strings of length <= %d over {0,5,.,+,m,K,i,B,G} + seeded grammar-directed random strings with '
+                     'perturbations; non-trivial = in the cpu or memory grammar; real parse_* vs the proved executable parsers (vm_compute); '
+                     'real fractions.Fraction vs Model.frac_of_str on the numerals' % ctx.scale(4, 5),
+                samples=[{'s': s, 'cpu': _show(ic), 'memory': _show(im)} for s, ic, im in list(zip(strings, impl['cpu'], impl['memory']))[100:103]],
+                disagreements=dis, histograms=hist,
+                names=['cpu_spec~parse_cpu_in_mcpu', 'mem_spec~parse_memory_in_bytes', 'mem_spec~parse_storage_in_bytes', 'frac_of_str~fractions.Fraction'])
+
+
+# ------------------------------------------------------------------------------------------------ oracle
+
+def oracle(ctx, budget):
+    strings = _cases(ctx, ctx.scale(6000, 60000) * budget, ctx.scale(4, 5), with_sweep=True)
+    units = ['K', 'Ki', 'M', 'Mi', 'G', 'Gi', 'T', 'Ti', 'P', 'Pi']
+    sweep = [s for s in strings if len(s) >= 5 and s[-4] == '.' and s.replace('.', '').isdigit()]
+    strings += [s + u for s in sweep for u in (units if ctx.thorough or budget > 1 else ['G', 'Mi', 'T'])] + [s + 'm' for s in sweep]
+    strings += [s + u for s, _ in LONG for u in ('', 'm', 'Gi')]
+    impl = _eval_impl(ctx, strings, server=True)
+    bad = {}
+
+    def note(key, what, case, exp, obs):
+        if key not in bad or len(case['s']) < len(bad[key].case['s']):
+            bad[key] = Failure(key, what, case, exp, obs)
+    n_valid = 0
+    for idx, s in enumerate(strings):
+        for fn, kind in (('cpu', 'cpu'), ('memory', 'mem'), ('storage', 'mem')):
+            exp = ref_parse(kind, s)
+            obs = impl[fn][idx]
+            n_valid += exp is not None
+            if obs == exp:
+                pass
+            elif isinstance(obs, str):
+                cls = 'digits>4300' if _ndigits(s) > 4300 else 'digits<=4300'
+                note(f'{fn}:raises-{obs[7:]}:{cls}', f'parse_{fn}({s[:40]!r}{"..." if len(s) > 40 else ""}) raises {obs[7:]} ({len(s)} characters); expected {_show(exp)[:40]}',
+                     {'fn': fn, 's': s}, None if exp is None else _show(exp), obs)
+            elif exp is None:
+                note(f'{fn}:accepts-outside-grammar:{_sig(s)}', f'parse_{fn}({s!r}) = {_show(obs)}, but the string is not in the grammar', {'fn': fn, 's': s}, None, _show(obs))
+            elif obs is None:
+                note(f'{fn}:rejects-grammar-string:{_sig(s)}', f'parse_{fn}({s!r}) = None, expected {_show(exp)}', {'fn': fn, 's': s}, _show(exp), None)
+            else:
+                d = obs - exp
+                note(f'{fn}:wrong-value:{"off-by-one" if abs(d) == 1 else "off-by-more"}',
+                     f'parse_{fn}({s[:60]!r}) = {_show(obs)}, exact value {_show(exp)}', {'fn': fn, 's': s}, _show(exp), _show(obs))
+            # client/server
+            srv = impl['server'][fn][idx]
+            cli = isinstance(obs, int) or (isinstance(obs, str))          # a raise is still "the regex matched"
+            if fn == 'memory' and s in impl.get('memory_types', []):
+                continue
+            if srv != cli:
+                note(f'server-client-differ:{fn}:{_sig(s)}', f'job validator {"accepts" if srv is True else "rejects"} resources.{fn}={s!r} but the client '
+                     f'function {"parses" if cli else "does not parse"} it', {'fn': fn, 's': s, 'server': True}, cli, srv)
+    fails = sorted(bad.values(), key=lambda f: (len(f.case['s']), f.key))
+    return fails, {'evaluations': 6 * len(strings), 'distinct_nontrivial': n_valid,
+                   'rule': 'oracle: for every string and each of parse_cpu_in_mcpu / parse_memory_in_bytes / parse_storage_in_bytes the result must equal the '
+                           'exact floor/ceil computed with integer arithmetic by a hand-written scanner (None outside the grammar), and the real '
+                           'job_validator["resources"] must accept it iff the client function parses it; cases = correspondence cases (larger random part) + '
+                           'all d.ddd below 30 (stride %d) with and without units + 4300/4301-digit numerals; non-trivial = (string, function) pairs in the grammar'
+                           % (1 if ctx.thorough else 7),
+                   'histograms': {'oracle_failure_keys': sorted(bad)[:20]}}
+
+
+def replay(ctx, doc):
+    case = doc.get('case') or doc
+    s = case['s']
+    r = _eval_impl(ctx, [s], server=True)
+    return {'string': s if len(s) < 200 else s[:100] + f'...({len(s)} chars)',
+            'impl': {k: (_show(r[k][0])[:80]) for k in ('cpu', 'memory', 'storage')},
+            'server_accepts': {k: r['server'][k][0] for k in ('cpu', 'memory', 'storage')},
+            'exact': {'cpu': _show(ref_parse('cpu', s))[:80], 'memory/storage': _show(ref_parse('mem', s))[:80]}}
